@@ -9,6 +9,7 @@ CONSTANTS
   FixLock = FALSE
   FixInit = TRUE
   FixIsSet = TRUE
+  DetTime = FALSE
   Locked = TRUE
 INVARIANT NoError
 CHECK_DEADLOCK FALSE
